@@ -102,6 +102,9 @@ def run(pid, tier):
     gen = docgen.documents(300 if tier == "quick" else 3000, seed(), pool=3000)
     docs += [(n, t.encode("utf-8")) for n, t in gen]
     docs += [(n, t.encode("utf-8")) for n, t in docgen.systematic(seed(), 300 if tier == "quick" else 3000, pool=3000)]
+    # fix triggers of every fix-capable rule inside nested structures, after containers that have ended (all of them in both tiers)
+    fam = [(n, t.encode("utf-8")) for n, t in docgen.fix_families()]
+    docs += fam
     rec = []
     for p in ("vh_rec_fix0", "vh_rec_fix1", "vh_rec_fix5"):
         rec += ["--add-plugin", os.path.join(impl.PLUGINS, p + ".py")]
@@ -113,6 +116,8 @@ def run(pid, tier):
         if tier == "thorough" or hk % 3 == 0:
             jobs.append((name, data, "default+third-party-fixers", rec))
         own = name.split("/")[0]
+        if own == "fixfam":
+            own = name.split("/")[3]                      # the rule whose trigger the document carries: that rule alone as well
         for rule in allfix:
             r_ = rule.lower()
             if own == r_ or (name.startswith(("extra", "gen/", "sys/")) and (tier == "thorough" and hk % 4 == 0 or (hk + int(r_[2:] if r_[2:].isdigit() else 0)) % 40 == 0)):
